@@ -64,12 +64,15 @@ def replay_case(case):
     where0 = dict(shape=case["shape"], units=case["units"], prefix=PREFIX[case["p"]])
     try:
         irr, lamv, axis, exp = build(case)
-        if axis is not None and case["units"] != "plain":
-            return bad   # apply_along_axis strips pint units: plain arrays only with an explicit axis
         kw = dict(prefix=PREFIX[case["p"]])
         if axis is not None:
             kw["axis"] = axis
         f = dreye.irr2flux(irr, lamv, **kw)
+        if axis is not None and not dreye.has_units(irr):
+            # a plain spectrum with return_units=True: the same numbers, as a quantity
+            fu = dreye.irr2flux(irr, lamv, return_units=True, **kw)
+            if not dreye.has_units(fu) or np.max(np.abs(np.asarray(fu.magnitude, float) - exp)) > 1e-12 * np.max(np.abs(exp)) + 1e-300:
+                bad.append(("C20.units-returned", dict(return_units=True, **where0), True, dreye.has_units(fu)))
         hasu = case["units"] in ("pint-I", "pint-uWcm2")
         if hasu != dreye.has_units(f):
             bad.append(("C20.units-returned", where0, hasu, dreye.has_units(f)))
@@ -152,7 +155,7 @@ def run(ctx):
         ctx.sample(c)
     ctx.extra["HCN_SI"] = float(HCN)
     ctx.assumptions += ["h, c, N_A substituted with their exact SI values by the harness; TLC decides only the coefficient algebra",
-                        "an explicit axis is exercised with plain arrays only (numpy.apply_along_axis strips units)"]
+                        ]
     return ctx.finish(rule=RULE, exhaustive=True)
 
 
